@@ -1161,6 +1161,113 @@ func c13SysPeer(interval, timeout, delay time.Duration, need int, limit time.Dur
 	return res, nil
 }
 
+// Option-presence sweep: CONNECT keep-alive kaSec (0: option not given), WithPingInterval p,
+// WithTimeout t (0: not given).  Healthy broker: ends when [need] pings were answered or the
+// connection was closed/replaced.  Silent broker (never answers a PINGREQ): ends at the first
+// Close by the client + redial, or when limit = expected detection + slack + 1 s passed.
+// expI/expT are only used to size the waits; the judgement is made in Coq from ka/p/t.
+func c13SysOpts(kaSec int, p, t time.Duration, silent bool, need int, slack time.Duration, tries int) (c13SysRes, error) {
+	expI := p
+	if expI == 0 {
+		expI = time.Duration(kaSec) * time.Second
+	}
+	expT := t
+	if expT == 0 {
+		expT = expI
+	}
+	var res c13SysRes
+	for try := 1; try <= tries; try++ {
+		b := newC13Broker(func(c *c13Conn, n int) bool { return !silent || c.idx > 1 })
+		ropts := []mqtt.ReconnectOption{mqtt.WithReconnectWait(time.Millisecond, 4*time.Millisecond)}
+		if p > 0 {
+			ropts = append(ropts, mqtt.WithPingInterval(p))
+		}
+		if t > 0 {
+			ropts = append(ropts, mqtt.WithTimeout(t))
+		}
+		cli, err := mqtt.NewReconnectClient(mqtt.DialerFunc(b.dial), ropts...)
+		if err != nil {
+			return c13SysRes{}, err
+		}
+		var copts []mqtt.ConnectOption
+		if kaSec > 0 {
+			copts = append(copts, mqtt.WithKeepAlive(uint16(kaSec)))
+		}
+		ctx, cancel := ctxTimeout(c13SysTO)
+		if _, err := cli.Connect(ctx, "c13", copts...); err != nil {
+			cancel()
+			return c13SysRes{}, fmt.Errorf("c13 sys: first connect: %v", err)
+		}
+		c1 := b.conn(1)
+		var limit time.Duration
+		switch {
+		case expI == 0:
+			limit = 300 * time.Millisecond // no keep-alive at all: nothing must happen
+		case silent:
+			limit = expI + expT + slack + time.Second
+		default:
+			limit = c13SysTO
+		}
+		b.waitEv(limit, func() bool {
+			c1.mu.Lock()
+			defer c1.mu.Unlock()
+			if expI == 0 {
+				return c1.pings > 0 || c1.clientClose > 0
+			}
+			if silent {
+				return c1.clientClose > 0 && b.dials() > 1
+			}
+			return c1.answered >= need || c1.clientClose > 0 || b.dials() > 1
+		})
+		c1.mu.Lock()
+		pings, answered, closes := c1.pings, c1.answered, c1.clientClose
+		times := append([]int64{}, c1.pingTimes...)
+		detect := int64(0)
+		if closes > 0 {
+			detect = c1.firstClose.Sub(c1.connackAt).Microseconds()
+		}
+		c1.mu.Unlock()
+		dials := b.dials()
+		if closes > 0 {
+			select {
+			case <-c1.base.Done():
+			case <-time.After(2 * time.Second):
+			}
+		}
+		errCoq, errDesc := c13ErrOf(c1.base)
+		ctxD, cancelD := ctxTimeout(5 * time.Second)
+		cli.Disconnect(ctxD)
+		cancelD()
+		cancel()
+		var ts []string
+		for _, x := range times {
+			ts = append(ts, fmt.Sprint(x))
+		}
+		res = c13SysRes{
+			Coq: fmt.Sprintf("SysOpts %d %d %d %s %s %d %s %s %s %s (%s) %d %s", int64(kaSec)*1000000, p.Microseconds(), t.Microseconds(),
+				cBool(silent), cNat(need), slack.Microseconds(), cNat(pings), cNat(answered), cNat(dials), cNat(closes), errCoq, detect, cListInline(ts)),
+			Desc: map[string]interface{}{"scenario": "option-presence sweep (0 = option not given)", "connect_keepalive_s": kaSec,
+				"WithPingInterval_us": p.Microseconds(), "WithTimeout_us": t.Microseconds(), "broker_silent": silent,
+				"answered_pings_needed": need, "detection_slack_us": slack.Microseconds(), "try": try, "pingreqs": pings, "answered": answered,
+				"dials": dials, "closes_by_client": closes, "Err": errDesc, "first_close_since_connack_us": detect,
+				"pingreq_times_since_connack_us": times},
+		}
+		ok := false
+		switch {
+		case expI == 0:
+			ok = pings == 0 && closes == 0 && dials == 1
+		case silent:
+			ok = closes > 0 && dials > 1 && detect <= (expI+expT+slack).Microseconds()
+		default:
+			ok = answered >= need && closes == 0 && dials == 1
+		}
+		if ok {
+			break
+		}
+	}
+	return res, nil
+}
+
 // the broker answers k pings and withholds the next answer; the user then calls Disconnect
 // while that ping is in flight (the ping fails at once with the closed transport, no context
 // is done): a graceful end, nothing must be recorded
@@ -1632,6 +1739,23 @@ func runC13(cfg *runCfg) error {
 		k := k
 		sys = append(sys, &sysJob{run: func() (c13SysRes, error) { return c13SysDisc(3*ms, 5*time.Second, k) }})
 	}
+	// option-presence sweep: {keep-alive, WithPingInterval, WithTimeout} given / omitted, healthy and silent broker
+	type optCombo struct {
+		ka   int
+		p, t time.Duration
+	}
+	for _, oc := range []optCombo{
+		{0, 0, 0}, {0, 0, 300 * ms}, // no ping interval, no keep-alive: no keep-alive loop at all
+		{1, 0, 0}, {1, 0, 250 * ms}, // interval = keep-alive (1 s)
+		{0, 300 * ms, 0}, {5, 300 * ms, 0}, // timeout defaults to the ping interval, not to the keep-alive
+		{0, 100 * ms, 400 * ms}, {5, 200 * ms, 300 * ms},
+	} {
+		oc := oc
+		sys = append(sys, &sysJob{run: func() (c13SysRes, error) { return c13SysOpts(oc.ka, oc.p, oc.t, false, 3, 0, 1) }})
+		if oc.p > 0 || oc.ka > 0 {
+			sys = append(sys, &sysJob{run: func() (c13SysRes, error) { return c13SysOpts(oc.ka, oc.p, oc.t, true, 0, 2*time.Second, 3) }})
+		}
+	}
 	// PingInterval != Timeout, in both directions
 	sys = append(sys, &sysJob{run: func() (c13SysRes, error) { return c13SysPeer(600*ms, 250*ms, 0, 1, c13SysTO, 1) }})
 	sys = append(sys, &sysJob{run: func() (c13SysRes, error) { return c13SysPeer(30*ms, 3*time.Second, 200*ms, 5, c13SysTO, 1) }})
@@ -1650,26 +1774,50 @@ func runC13(cfg *runCfg) error {
 	wg.Wait()
 	wgs.Wait()
 
-	// ---- pace: the only UPPER bound on time ("a ping every interval", not every second one):
-	// n promptly answered pings at a long interval must each start within [slack] of the model's
-	// time.  Run serially after everything else; a miss is believed only if three tries in a
-	// row miss.
-	paceI, paceN, paceSlack := 150*ms, 5, 500*ms
-	var pace c13Obs
-	paceTries := 0
-	for try := 0; try < 3; try++ {
-		paceTries++
-		pace = c13RunFake(paceI, c13LongTO, make([]c13Step, paceN), false, 1)
-		ok := len(pace.Starts) == paceN
-		for j, st := range pace.Starts {
-			if st > (int64(j+1)*paceI.Microseconds() + paceSlack.Microseconds()) {
-				ok = false
-			}
-		}
-		if ok {
-			break
-		}
+	// ---- pace: upper bounds on time ("a ping every interval": not every second tick, and no
+	// drift with the round-trip time).  n pings, each answered after d = 0.3 / 0.8 of a long
+	// interval: every ping must start within [slack] of its tick and the mean period
+	// (t_n - t_1)/(n-1) must be within 15 % of the interval (a ticker is anchored: scheduling
+	// jitter enters only through the first and the last ping and is divided by n-1).  Run after
+	// everything else; a miss is believed only if three tries in a row miss.
+	paceI, paceN, paceSlack := 200*ms, 6, 500*ms
+	type paceRun struct {
+		d     time.Duration
+		obs   c13Obs
+		tries int
 	}
+	paces := []*paceRun{{d: 60 * ms}, {d: 160 * ms}}
+	var wgp sync.WaitGroup
+	for _, pr := range paces {
+		pr := pr
+		wgp.Add(1)
+		go func() {
+			defer wgp.Done()
+			for try := 0; try < 3; try++ {
+				pr.tries++
+				steps := make([]c13Step, paceN)
+				for i := range steps {
+					steps[i].D = int(pr.d.Microseconds())
+				}
+				pr.obs = c13RunFake(paceI, c13LongTO, steps, false, 1)
+				ok := len(pr.obs.Starts) == paceN
+				for j, st := range pr.obs.Starts {
+					if st > (int64(j+1)*paceI.Microseconds() + paceSlack.Microseconds()) {
+						ok = false
+					}
+				}
+				if ok {
+					span := 100 * (pr.obs.Starts[paceN-1] - pr.obs.Starts[0])
+					k := int64(paceN-1) * paceI.Microseconds()
+					ok = span >= 85*k && span <= 115*k
+				}
+				if ok {
+					break
+				}
+			}
+		}()
+	}
+	wgp.Wait()
 
 	// ---- write cases
 	cf := newCasesFile("C13", "KeepAlive", "CheckC13")
@@ -1733,14 +1881,19 @@ func runC13(cfg *runCfg) error {
 	cf.def("base_cases", "list c13_out_case", cList(baseCases))
 	cf.def("wire_cases", "list c13_wire_case", cList(wireCases))
 	cf.def("sys_cases", "list sys_case", cList(sysCases))
-	var paceStarts []string
-	for _, st := range pace.Starts {
-		paceStarts = append(paceStarts, fmt.Sprint(st))
+	var paceCases []string
+	for _, pr := range paces {
+		var paceStarts []string
+		for _, st := range pr.obs.Starts {
+			paceStarts = append(paceStarts, fmt.Sprint(st))
+		}
+		paceCases = append(paceCases, fmt.Sprintf("(%d, %d, %d, %s, (%s), %s)",
+			paceI.Microseconds(), paceSlack.Microseconds(), pr.d.Microseconds(), cNat(paceN), pr.obs.Res, cListInline(paceStarts)))
+		m.Families["pace"] = append(m.Families["pace"], map[string]interface{}{"family": "pace", "interval": paceI.String(),
+			"script": fmt.Sprintf("%d pings, each answered after %s", paceN, pr.d), "slack": paceSlack.String(),
+			"mean_period_tolerance": "15%", "tries": pr.tries, "observed": pr.obs})
 	}
-	cf.def("pace_cases", "list c13_pace_case", cList([]string{fmt.Sprintf("(%d, %d, %s, (%s), %s)",
-		paceI.Microseconds(), paceSlack.Microseconds(), cNat(paceN), pace.Res, cListInline(paceStarts))}))
-	m.Families["pace"] = append(m.Families["pace"], map[string]interface{}{"family": "pace", "interval": paceI.String(),
-		"script": fmt.Sprintf("%d pings answered at once", paceN), "slack": paceSlack.String(), "tries": paceTries, "observed": pace})
+	cf.def("pace_cases", "list c13_pace_case", cList(paceCases))
 	cf.result("V_pace", "c13_pace_violations pace_cases")
 	cf.result("M_pace", "c13_pace_mismatches pace_cases")
 	cf.result("V_out", "c13_out_violations out_cases")
@@ -1753,9 +1906,9 @@ func runC13(cfg *runCfg) error {
 	cf.result("M_wire", "c13_wire_mismatches wire_cases")
 	cf.result("V_sys", "c13_sys_violations sys_cases")
 	cf.result("M_sys", "c13_sys_mismatches sys_cases")
-	m.Evaluations = len(jobs) - skipped + len(sys) + 1
+	m.Evaluations = len(jobs) - skipped + len(sys) + len(paces)
 	m.DistinctNontrivial = nontrivial
-	m.Rule = fmt.Sprintf("mqtt.KeepAlive driven by a scripted Client: every script up to length %d over {answered at once, answered after half an interval, never answered, failing at once with 3 different errors (two of them wrapping another context's error), parent context Canceled/DeadlineExceeded before/during the ping}, each terminal outcome after 4..%d answered pings, every one of 54 general steps (cancel before x 6 ping behaviours x cancel during) after 0-2 answered pings, %d pairs of them, %d random scripts of up to %d pings incl. non-positive interval/timeout; %d scripts against a real BaseClient over an in-memory transport with a scripted broker, %d more where the broker sends surplus PINGRESPs (duplicates, unsolicited ones between pings) or answers with zero delay (PINGRESP consumed by the reader before Transport.Write returns) before going silent; %d ReconnectClient scenarios (broker silent after k pings, also after the caller cancelled the context it passed to Connect, responsive broker soaked %s then Disconnect, peer drop followed by a healthy connection, Disconnect while a ping is unanswered, PingInterval != Timeout in both directions with an instant and with a slow-but-living broker); one pace run (5 answered pings at 150 ms, each must start within 500 ms of its tick, best of up to three serial tries). Non-trivial = distinct script on which the loop returned after at least 2 pings",
+	m.Rule = fmt.Sprintf("mqtt.KeepAlive driven by a scripted Client: every script up to length %d over {answered at once, answered after half an interval, never answered, failing at once with 3 different errors (two of them wrapping another context's error), parent context Canceled/DeadlineExceeded before/during the ping}, each terminal outcome after 4..%d answered pings, every one of 54 general steps (cancel before x 6 ping behaviours x cancel during) after 0-2 answered pings, %d pairs of them, %d random scripts of up to %d pings incl. non-positive interval/timeout; %d scripts against a real BaseClient over an in-memory transport with a scripted broker, %d more where the broker sends surplus PINGRESPs (duplicates, unsolicited ones between pings) or answers with zero delay (PINGRESP consumed by the reader before Transport.Write returns) before going silent; %d ReconnectClient scenarios (broker silent after k pings, also after the caller cancelled the context it passed to Connect, responsive broker soaked %s then Disconnect, peer drop followed by a healthy connection, Disconnect while a ping is unanswered, PingInterval != Timeout in both directions with an instant and with a slow-but-living broker); two pace runs (6 pings at 200 ms answered after 60 / 160 ms: each must start within 500 ms of its tick and the mean period must be within 15 % of the interval, best of up to three tries); the option-presence sweep over {CONNECT keep-alive, WithPingInterval, WithTimeout} with a healthy and a silent broker each. Non-trivial = distinct script on which the loop returned after at least 2 pings",
 		L, ns[len(ns)-1], nPairs, nRand, maxLen, nBase, nWire, len(sys), soak)
 	m.Distribution["out_scripts"] = nOutEnum
 	m.Distribution["env_scripts"] = nEnv
